@@ -13,7 +13,7 @@ MODEL = 'c15'
 RUNFUN = 'run'
 COQ_TARGETS = ['theories/Properties/C15.vo', 'theories/Extract/RunC15.vo']
 DESIGN_REF = 'DESIGN.md section 6, C15'
-TECHNIQUE = ('Coq proof (exact rationals Qc, induction over call sequences) about an executable model of '
+TECHNIQUE = ('Coq proof (exact rationals Qc, induction over call sequences and sessions) about an executable model of '
              'Spectrum.integrate/bin/ends/trim/crop/pad/append/resample + exact differential execution of the extracted '
              'model against lentil.radiometry.Spectrum on one live object per call sequence + a model-free Fraction oracle')
 LEVEL_TEXT = ('Theorems in coq/theories/Properties/C15.v over all rational spectra (every float is a rational): integrate is '
@@ -45,8 +45,12 @@ ASSUMPTIONS = ['integrate(start, end): C15 pins the quadrature on the samples in
                'power-of-two gaps; everything else (Simpson, power-preserved bins, other gaps) is compared to 1e-12 and a call '
                'sequence is no longer compared once it leaves the exact regime',
                'pad: sampling is "min" or a positive number; method/ends/mode strings are the documented ones']
-RULE = ('corpus first, then random call sequences (length <= 8 quick / <= 25 thorough) on one Spectrum object mixing '
-        'accepted and refused crop/trim/pad/append/resample calls (state and exception class compared after every call), '
+RULE = ('corpus first, then random sessions (length <= 8 quick / <= 25 thorough) on ONE live Spectrum object mixing '
+        'accepted and refused crop/trim/pad/append/resample calls with value assignments on the same grid (scaled, shifted, '
+        'reversed; value-unit conversions photlam/flam/wlam), and integrate / bin queries repeated with the same bounds and '
+        'centres (state, exception class and answer compared with the model after every call; every query also put to a '
+        'brand-new object with the same wave and value); float and integer-typed arrays; several argument forms; short '
+        'histories (query, new values, same query); '
         'integrate with bounds inside/outside/at samples plus linear-combination and additivity companions, bins with uniform, '
         'non-uniform and shuffled centres, both ends, both rules, with and without power preservation, ends(), sample(); '
         'non-trivial = non-uniform grid or at least three calls/samples; distinct by case hash')
@@ -88,8 +92,9 @@ def g_wave_ok(w):
 class Sim:
     """tracks the expected state so that the generator can aim its calls; a wrong guess only makes a case dull"""
 
-    def __init__(self, w, v):
+    def __init__(self, w, v, vu=None, qrate=0.3):
         self.w, self.v = list(w), list(v)
+        self.vu, self.qrate, self.pool = vu, qrate, []
 
     def crop(self, a, b):
         if not self.w:
@@ -200,9 +205,15 @@ def rnd_values(rng, n, nonneg=False, zeros_at_ends=False):
     return v
 
 
-def rnd_spectrum(rng, nmax=8, nonneg=False, uniform=False):
+def rnd_spectrum(rng, nmax=8, nonneg=False, uniform=False, integer=False):
     t = rng.random()
     n = 0 if t < 0.02 else 1 if t < 0.06 else rng.randint(2, nmax)
+    if integer:
+        w, x = [], F(rng.randint(1, 6))
+        for _ in range(n):
+            w.append(x)
+            x += rng.choice([1, 1, 2])
+        return w, [F(rng.randint(0, 8)) for _ in range(n)]
     return rnd_grid(rng, n, uniform=uniform), rnd_values(rng, n, nonneg, zeros_at_ends=rng.random() < 0.5)
 
 
@@ -364,10 +375,11 @@ def all_int(xs):
 
 def gen_history(rng):
     """2-4 calls on one object with ONE thing varied: the same query before and after new values on the same grid"""
-    w, v = rnd_spectrum(rng, nmax=9)
+    integer = rng.random() < 0.2
+    w, v = rnd_spectrum(rng, nmax=9, integer=integer)
     while len(w) < 3:
-        w, v = rnd_spectrum(rng, nmax=9)
-    vu = 'photlam' if rng.random() < 0.25 else None
+        w, v = rnd_spectrum(rng, nmax=9, integer=integer)
+    vu = 'photlam' if rng.random() < 0.25 and not integer else None
     sim = Sim(w, v, vu)
     q = gen_query(rng, sim, [])
     while q['k'] not in ('integrate', 'bin'):
@@ -385,14 +397,15 @@ def gen_history(rng):
     c = {'op': 'seq', 'w': fs(w), 'v': fs(v), 'ops': ops}
     if vu:
         c['vu'] = vu
-    elif all_int(c['w'] + c['v']) and rng.random() < 0.3:
+    elif all_int(c['w'] + c['v']) and rng.random() < 0.7:
         c['dtype'] = 'int'
     return c
 
 
 def gen_seq(rng, maxlen):
-    w, v = rnd_spectrum(rng)
-    vu = 'photlam' if rng.random() < 0.12 else None
+    integer = rng.random() < 0.1
+    w, v = rnd_spectrum(rng, integer=integer)
+    vu = 'photlam' if rng.random() < 0.12 and not integer else None
     sim = Sim(w, v, vu, qrate=rng.choice([0.0, 0.25, 0.4]))
     ops = []
     budget = 3
@@ -408,7 +421,7 @@ def gen_seq(rng, maxlen):
     c = {'op': 'seq', 'w': fs(w), 'v': fs(v), 'ops': ops}
     if vu:
         c['vu'] = vu
-    elif all_int(c['w'] + c['v']) and rng.random() < 0.15:
+    elif all_int(c['w'] + c['v']) and rng.random() < 0.7:
         c['dtype'] = 'int'        # integer-typed wave/value arrays must behave like the float ones
     return c
 
@@ -924,8 +937,67 @@ def interp_exact(w, v):
     return all(pow2(b - a) for a, b in zip(w, w[1:])) and all(exact_q(x) for x in list(w) + list(v))
 
 
+def o_simpson(w, v):
+    """scipy's rule on the selected samples, asked directly (no lentil object, no memo)"""
+    import scipy.integrate
+    return float(scipy.integrate.simpson(x=np.array(fl(w)), y=np.array(fl(v))))
+
+
+def same(x, y, tol=1e-12):
+    if isinstance(x, list) or isinstance(y, list):
+        return isinstance(x, list) and isinstance(y, list) and len(x) == len(y) and all(same(a, b, tol) for a, b in zip(x, y))
+    if not (math.isfinite(x) and math.isfinite(y)):
+        return (math.isnan(x) and math.isnan(y)) or x == y
+    return abs(x - y) <= tol * (1 + abs(y))
+
+
+def oracle_query(o, st, pw, pv, memo, tag):
+    """a query inside a session: answered from the object's CURRENT wave and value, whatever was asked before"""
+    err, ans, fresh = st['err'], st.get('ans'), st.get('fresh')
+    if isinstance(fresh, dict):
+        if not err:
+            return f'{tag}: the live object answers {ans!r}, a new object with the same wave and value raises {fresh["err"]}'
+        return None if err == fresh['err'] else f'{tag}: raises {err}, a new object with the same wave and value raises {fresh["err"]}'
+    if err:
+        return f'{tag}: raises {err}, a new object with the same wave and value answers {fresh!r}'
+    if not same(ans, fresh):
+        return (f'{tag}: the live object answers {ans!r} but a new object with the same wave and value answers {fresh!r} '
+                f'(the answer depends on the history of the object)')
+    if o['k'] == 'integrate':
+        lo = F(float(F(o['a']))) if o['a'] is not None else min(pw)
+        hi = F(float(F(o['b']))) if o['b'] is not None else max(pw)
+        sw, sv = o_select(pw, pv, lo, hi)
+        if o['rule'] == 'trapz':
+            if not close(ans, o_trapz(sw, sv), 1e-11):
+                return f'{tag}: {ans!r}, trapezoid rule over the current samples in the closed range = {float(o_trapz(sw, sv))!r}'
+        elif sw and not same(ans, o_simpson(sw, sv), 1e-10):
+            return f'{tag}: {ans!r}, Simpson rule over the current samples in the closed range = {o_simpson(sw, sv)!r}'
+        # linear in the values: same grid, values k times those of an earlier identical query
+        key = (o['a'], o['b'], o['rule'])
+        if key in memo:
+            mw, mv, mi = memo[key]
+            nz = [i for i, y in enumerate(mv) if y != 0]
+            if mw == pw and nz and len(mv) == len(pv):
+                kf = pv[nz[0]] / mv[nz[0]]
+                if all(y == kf * x for x, y in zip(mv, pv)) and not close(ans, kf * F(mi), 1e-10):
+                    return (f'{tag}: values are {float(kf)} times those of an earlier identical query that gave {mi!r}; '
+                            f'integrate now gives {ans!r}, not {float(kf * F(mi))!r} (not linear in the values)')
+        memo[key] = (pw, pv, ans)
+    else:
+        cs = fx(fl(o['c']))
+        if len(ans) != len(cs):
+            return f'{tag}: {len(ans)} bins for {len(cs)} centres'
+        if o['pp'] and o['rule'] == 'trapz' and all(math.isfinite(x) for x in ans) and abs(sum(ans)) > 1e-9:
+            sw, sv = o_select(pw, pv, min(cs), max(cs))
+            if not close(sum(ans), o_trapz(sw, sv), 1e-10):
+                return (f'{tag}: power-preserved bins sum to {sum(ans)!r}, integrate over the span of the centres on the '
+                        f'current values is {float(o_trapz(sw, sv))!r}')
+    return None
+
+
 def oracle_seq(c, impl):
     pw, pv = fx(fl(c['w'])), fx(fl(c['v']))
+    memo = {}
     for k, (o, st) in enumerate(zip(c['ops'], impl['steps'])):
         name = o['k']
         if any(not math.isfinite(x) for x in st['w'] + st['v']):
@@ -940,6 +1012,25 @@ def oracle_seq(c, impl):
             return f'{tag}: wavelength grid not strictly increasing'
         if any(x <= 0 for x in w):
             return f'{tag}: non-positive wavelength'
+        if name in ('integrate', 'bin'):
+            if (w, v) != (pw, pv):
+                return f'{tag}: the query modified the spectrum'
+            m = oracle_query(o, st, pw, pv, memo, tag)
+            if m:
+                return m
+            continue
+        if name in ('setvalue', 'to'):
+            if err:
+                return f'{tag}: raised {err}'
+            if w != pw:
+                return f'{tag}: an assignment of values moved the wavelength grid'
+            if name == 'setvalue':
+                par = F(o['par']) if o['par'] is not None else None
+                exp = [par * y for y in pv] if o['how'] == 'scale' else [y + par for y in pv] if o['how'] == 'shift' else pv[::-1]
+                if any(not close(float(y), e) for y, e in zip(v, exp)):
+                    return f'{tag}: the object does not hold the assigned values'
+            pw, pv = w, v
+            continue
         # retained samples unaltered
         old = dict(zip(pw, pv))
         for x, y in zip(w, v):
